@@ -304,7 +304,7 @@ def run(ctx, rep):
                        "discriminants, CABAC geometry, every named constant/table the reconstruction path references, canonical closed forms of its "
                        "pure loop-free leaf functions) equals the frozen reference of the pinned release + recorded fixes unless a version constant "
                        "changed. Catches silent, symmetric changes (enum reorder, hash constant, tie-break operator, tag value, header field) that "
-                       "every same-build round-trip test passes. Literals inside looping prediction code are deliberately outside the surface.")
+                       "every same-build round-trip test passes. Looping prediction code is represented by the multiset of its decision thresholds (constants compared against, with the comparison operator) rather than by closed forms.")
     rep.trusted = ["reference/format_surface.json was frozen from the pinned tree plus the recorded fix: commits and is never rewritten at run time"]
     v1(F, rep)
     if not os.path.exists(REF):
